@@ -79,6 +79,12 @@ I = [
     ['diff', {'content': 'x\n', 'diff_type': 'text'}],
     ['preamble', {'text': b'bytes', 'encoding': 'utf-8'}],
     ['meta', {'metadata': '{"k": 1}'}],
+    # not a dict, or not a JSON object, however mapping-like
+    ['meta', {'metadata': {'$kind': 'mixed-keys'}}],
+    ['meta', {'metadata': {'$kind': 'proxy'}}],
+    ['meta', {'metadata': {'$kind': 'chainmap'}}],
+    ['meta', {'metadata': {'$kind': 'userdict'}}],
+    ['meta', {'metadata': {'$kind': 'items'}}],
     ['meta', {'metadata': b'{"k": 1}', 'encoding': 'utf-8'}],
 ]
 
@@ -109,6 +115,8 @@ Q = [
     ['file', {'encoding': 'utf-8\n#...meta: length=2'}],
     ['diff', {'content': b'x\n', 'encoding': 'UTF 8'}],
     ['file', {'encoding': 'utf-8, length=5'}],
+    ['change', {'encoding': 'utf-8\n'}],
+    ['preamble', {'text': 'x', 'encoding': 'latin-1\n'}],
     # characters that case-fold to ASCII letters
     ['change', {'encoding': 'utf-8\u212a'}],
     ['file', {'encoding': 'lat\u0131n-1'}],
@@ -139,7 +147,17 @@ def materialize(kw):
     kw = dict(kw)
     md = kw.get('metadata')
 
-    if isinstance(md, dict):
+    if isinstance(md, dict) and set(md) == {'$kind'}:
+        import collections
+        import types
+        kw['metadata'] = {
+            'mixed-keys': {'lines': 3, 1: 'x'},
+            'proxy': types.MappingProxyType({'k': 1}),
+            'chainmap': collections.ChainMap({'k': 1}, {'j': 2}),
+            'userdict': collections.UserDict({'k': 1}),
+            'items': [('k', 1)],
+        }[md['$kind']]
+    elif isinstance(md, dict):
         kw['metadata'] = {k: (object() if v == UNSER else v)
                           for k, v in md.items()}
 
